@@ -20,23 +20,25 @@ type Clause struct {
 }
 
 type Contract struct {
-	Key      string // pkgpath + "." + relname
-	Pkg      string
-	Name     string
-	Params   []string
-	Results  []string
-	Requires []Clause
-	Ensures  []Clause
-	Modifies []string
-	LoopInv  map[int][]Clause
-	LoopMod  map[int][]string
-	Assumed  bool // contract is trusted, body not verified
-	MayPanic bool
-	Pure     bool // no heap effect at all (modifies nothing)
-	SameAs   string
-	Props    []string // properties this function's obligations count for
-	Where    string
-	Lets     [][2]string
+	Key       string // pkgpath + "." + relname
+	Pkg       string
+	Name      string
+	Params    []string
+	Results   []string
+	Requires  []Clause
+	Ensures   []Clause
+	Modifies  []string
+	LoopInv   map[int][]Clause
+	LoopMod   map[int][]string
+	Assumed   bool // contract is trusted, body not verified
+	MayPanic  bool
+	Uncalled  bool // the function must have no caller in the loaded program
+	GhostOnly bool // applied in addition to the built-in model of the callee (ghost effects only)
+	Pure      bool // no heap effect at all (modifies nothing)
+	SameAs    string
+	Props     []string // properties this function's obligations count for
+	Where     string
+	Lets      [][2]string
 }
 
 type GhostVar struct {
@@ -63,7 +65,16 @@ type MonitorDecl struct {
 	Inv    []Clause
 }
 
+type PredDecl struct {
+	Name   string
+	Pkg    string
+	Params []string
+	Body   Clause
+}
+
 type Contracts struct {
+	Preds      map[string]*PredDecl
+	Ranges     []GuaranteeDecl // assumed ranges of atomic locations
 	Funcs      map[string]*Contract
 	Ghosts     map[string]*GhostVar
 	Globals    []GlobalInv
@@ -74,7 +85,7 @@ type Contracts struct {
 }
 
 func newContracts() *Contracts {
-	return &Contracts{Funcs: map[string]*Contract{}, Ghosts: map[string]*GhostVar{}}
+	return &Contracts{Funcs: map[string]*Contract{}, Ghosts: map[string]*GhostVar{}, Preds: map[string]*PredDecl{}}
 }
 
 var reLabel = regexp.MustCompile(`^\[([A-Za-z0-9_.\-]+)\]\s*`)
@@ -233,6 +244,7 @@ func (cs *Contracts) parseContractLines(lines []string, file string, pkgPath str
 	var lastClause *Clause
 	var lastKind string
 	var lastLoop int
+	var lastPred *PredDecl
 	flush := func() error {
 		if lastClause == nil {
 			return nil
@@ -251,6 +263,9 @@ func (cs *Contracts) parseContractLines(lines []string, file string, pkgPath str
 			cur.LoopInv[lastLoop] = append(cur.LoopInv[lastLoop], cl)
 		case "global":
 			cs.Globals = append(cs.Globals, GlobalInv{Pkg: pkgPath, Clause: cl})
+		case "pred":
+			lastPred.Body = cl
+			cs.Preds[lastPred.Name] = lastPred
 		}
 		lastClause = nil
 		return nil
@@ -283,7 +298,10 @@ func (cs *Contracts) parseContractLines(lines []string, file string, pkgPath str
 			}
 			name := m[1]
 			key := name
-			if pkgPath != "" {
+			if strings.HasPrefix(name, "@") {
+				name = name[1:]
+				key = name // absolute key: a function of another (external) package
+			} else if pkgPath != "" {
 				key = pkgPath + "." + name
 			}
 			cur = &Contract{Key: key, Pkg: pkgPath, Name: name, LoopInv: map[int][]Clause{}, LoopMod: map[int][]string{}, Where: where}
@@ -319,6 +337,26 @@ func (cs *Contracts) parseContractLines(lines []string, file string, pkgPath str
 				return err
 			}
 			cs.Guarantees = append(cs.Guarantees, GuaranteeDecl{Pkg: pkgPath, Designator: f[0], Clause: cl})
+		case "pred":
+			// pred name(a, b) = expr
+			m := regexp.MustCompile(`^([A-Za-z_][A-Za-z0-9_]*)\(([^)]*)\)\s*=\s*(.*)$`).FindStringSubmatch(rest)
+			if m == nil {
+				return fmt.Errorf("%s: bad pred", where)
+			}
+			lastClause = &Clause{Text: m[3], Where: where}
+			lastKind = "pred"
+			lastPred = &PredDecl{Name: m[1], Pkg: pkgPath, Params: splitNames(m[2])}
+		case "range_assumed":
+			f := strings.SplitN(rest, " ", 2)
+			if len(f) != 2 {
+				return fmt.Errorf("%s: bad range_assumed", where)
+			}
+			cl, err := parseClause(f[1], where)
+			if err != nil {
+				return err
+			}
+			cs.Ranges = append(cs.Ranges, GuaranteeDecl{Pkg: pkgPath, Designator: f[0], Clause: cl})
+			cs.Trusted = append(cs.Trusted, "assumed range of "+f[0]+": "+f[1])
 		case "monitor":
 			f := strings.Fields(rest)
 			if len(f) < 2 {
@@ -393,6 +431,11 @@ func (cs *Contracts) parseContractLines(lines []string, file string, pkgPath str
 			cur.Assumed = true
 		case "may_panic":
 			cur.MayPanic = true
+		case "uncalled":
+			cur.Uncalled = true
+		case "ghost_only":
+			cur.GhostOnly = true
+			cur.Assumed = true
 		case "pure":
 			cur.Pure = true
 		case "same_as":
